@@ -33,7 +33,7 @@ import (
 
 var log = logging.MustGetLogger("listeners/agent")
 
-//  Register the listener
+// Register the listener
 var (
 	_ = listener.Register("agent", New)
 )
@@ -182,8 +182,9 @@ func (al *agentListener) serv(c *conn2) {
 			ac := &agentConnection{
 				Laddr: v.Laddr,
 				Raddr: v.Raddr,
-				in:    make(chan []byte),
-				out:   out,
+				// one pending wake-up is retained, see agentConnection.receive
+				in:  make(chan []byte, 1),
+				out: out,
 			}
 
 			conns.Add(ac)
